@@ -10,6 +10,8 @@ def cases(chk, mdl):
     P = uris.P
     texts = ["s://u@h:8/a/b?q#f", "a/b/c", "//[v1.x]/a/../b/", "HTTP://%41@EX/../%7e?%41#%41", "s://1.2.3.4/a/./b/..", "x/../..", "/a/b/../..", "//[::1]:8/%41/../%42/",
              "s:", "", "/", "//h", "a", "s:a/b/../../c/d/e", "//@:/", "s://h/a/b/c/d/e/f/.."]
+    # allocation sites that need a particular shape: address hosts at the very end / before a port, segments that cannot be a scheme
+    texts += ["//1.2.3.4", "//1.2.3.4:80", "//1.2.3.4:80/", "//u:1@1.2.3.4", "a%41", "a%41?q", "a?q", "a#f", "//[::1]", "a/b/..", "s://h/a//..", "x/y//..", "/a/b/c/./"]
     texts += chk.rng.sample(uris.valid_texts(mdl, uris.small_texts(3, alphabet=uris.SEG_FULL, auths=(None, "//h"), schemes=(None, "s"))), 60 if q else 800)
     calls = []
     for t in texts:
@@ -17,12 +19,14 @@ def cases(chk, mdl):
         calls.append("makeowner %s" % P(t))
         for mask in ((63, 8) if q else (63, 8, 4, 1, 2, 16, 32, 12)):
             for ow in (0, 1): calls.append("normalize %d %d %s" % (mask, ow, P(t)))
-    bases = ["s://u@h:8/a/b?q", "s:/x/y", "s:a", "s://[::1]/a", "s://1.2.3.4"]
-    refs = ["", "..", "c/d/..", "/c/../..", "//g/a/..", "?y", "s:d/e", "g:h", ".//b", "../../x/y/z/..", "/.//a", "a/b/c/d"] + (texts[:10] if q else texts[:60])
+    bases = ["s://u@h:8/a/b?q", "s:/x/y", "s:a", "s://[::1]/a", "s://1.2.3.4", "s:/"]
+    refs = ["", "..", "c/d/..", "/c/../..", "//g/a/..", "?y", "s:d/e", "g:h", ".//b", "../../x/y/z/..", "/.//a", "a/b/c/d",
+            "//g/a/b/..", "g:a/b/..", "g:/.//a", "/", "/a/b/..", "//9.9.9.9/a/b/..", "//[::2]", ".//a", "s:a/b/.."] + (texts[:10] if q else texts[:60])
     for b in bases:
         for r in refs:
             calls.append("addbase 0 %s %s" % (P(r), P(b)))
-        for s_ in ["s://u@h:8/a/c/d", "s:/x/z/w", "s://g/a", "t:a", "s://u@h:8/a/b/c/d/e", "s:a/b"]:
+        for s_ in ["s://u@h:8/a/c/d", "s:/x/z/w", "s://g/a", "t:a", "s://u@h:8/a/b/c/d/e", "s:a/b",
+                   "t://1.2.3.4/a", "s://[::2]/a/b", "s://9.9.9.9/x", "s:/x/b:c", "s:/x//y", "s://u@h:8//x", "s://u@h:8/a/b:c/d", "s://u@h:8/a//d"]:
             calls.append("removebase 0 %s %s" % (P(s_), P(b))); calls.append("removebase 1 %s %s" % (P(s_), P(b)))
     return calls
 
